@@ -53,7 +53,7 @@ def outToJson : Out → Json
   | .raised w => jobj [("raised", Json.str w)]
   | .ret v => jobj [("ret", valToJson v)]
 
-def optNat : Option Nat → Json
+private def optNat : Option Nat → Json
   | none => Json.null
   | some n => jnat n
 
